@@ -146,7 +146,9 @@ class SMCSampler(MCMCSampler):
 
             if self.adaptive_min_step and beta_star < 1.0:
                 min_step = min_step * (1 - beta_prev) / (1 - beta_star)
-            beta = max(beta_star, beta_prev + min_step)
+            # Always progress by at least the bisection tolerance so that a
+            # population whose ESS collapses immediately cannot stall the run
+            beta = max(beta_star, beta_prev + max(min_step, beta_tolerance))
             beta = min(beta, 1.0)
         return beta, min_step
 
